@@ -149,6 +149,12 @@ func (rule Properties) AsRewriteRule(pkg string) (builder.RewriteRule, error) {
 		return nil, err
 	}
 
+	for _, property := range rule.Set {
+		if err := validateType(property.Type); err != nil {
+			return nil, fmt.Errorf("properties: %s: %w", property.Name, err)
+		}
+	}
+
 	return builder.Properties(
 		selector,
 		rule.Set,
@@ -223,6 +229,20 @@ func (rule AddOption) AsRewriteRule(pkg string) (builder.RewriteRule, error) {
 		return nil, err
 	}
 
+	if err := validateArguments(rule.Option.Arguments); err != nil {
+		return nil, fmt.Errorf("add_option: %w", err)
+	}
+
+	for _, assignment := range rule.Option.Assignments {
+		if assignment.Value.Argument == nil {
+			continue
+		}
+
+		if err := validateArguments([]ast.Argument{*assignment.Value.Argument}); err != nil {
+			return nil, fmt.Errorf("add_option: %w", err)
+		}
+	}
+
 	return builder.AddOption(selector, rule.Option), nil
 }
 
@@ -235,6 +255,16 @@ func (rule AddFactory) AsRewriteRule(pkg string) (builder.RewriteRule, error) {
 	selector, err := rule.AsSelector(pkg)
 	if err != nil {
 		return nil, err
+	}
+
+	if err := validateArguments(rule.Factory.Args); err != nil {
+		return nil, fmt.Errorf("add_factory: %w", err)
+	}
+
+	for _, optionCall := range rule.Factory.OptionCalls {
+		if err := validateOptionCallParameters(optionCall.Parameters); err != nil {
+			return nil, fmt.Errorf("add_factory: option '%s': %w", optionCall.Name, err)
+		}
 	}
 
 	return builder.AddFactory(selector, rule.Factory), nil
